@@ -327,6 +327,8 @@ pub fn join_scoped(scope: ScopeName, group: GroupName, actors: Vec<ActorCell>) {
     if actors.is_empty() {
         return;
     }
+    #[cfg(feature = "verif")]
+    crate::verif::point("pg.join.filtered");
 
     let mut stopped_relations = Vec::new();
     let (joined, listeners) = {
@@ -364,6 +366,8 @@ pub fn join_scoped(scope: ScopeName, group: GroupName, actors: Vec<ActorCell>) {
         (joined, group_state.listeners.clone())
     };
 
+    #[cfg(feature = "verif")]
+    crate::verif::point("pg.join.entered");
     for (actor, relations) in stopped_relations {
         remove_empty_actor_relations(monitor, actor, &relations);
     }
@@ -377,6 +381,8 @@ pub fn join_scoped(scope: ScopeName, group: GroupName, actors: Vec<ActorCell>) {
         return;
     }
 
+    #[cfg(feature = "verif")]
+    crate::verif::point("pg.join.notify");
     for listener in &listeners {
         let _ = listener.send_supervisor_evt(SupervisionEvent::ProcessGroupChanged(
             GroupChangeMessage::Join(scope.to_owned(), group.clone(), joined.clone()),
@@ -432,6 +438,8 @@ pub fn leave_scoped(scope: ScopeName, group: GroupName, actors: Vec<ActorCell>) 
         return;
     };
 
+    #[cfg(feature = "verif")]
+    crate::verif::point("pg.leave.notify");
     for listener in &listeners {
         let _ = listener.send_supervisor_evt(SupervisionEvent::ProcessGroupChanged(
             GroupChangeMessage::Leave(scope.to_owned(), group.clone(), actors.clone()),
@@ -451,9 +459,13 @@ pub(crate) fn leave_all(actor: ActorId) {
     let mut relations_guard = lock_relations(&relations);
     let memberships = std::mem::take(&mut relations_guard.memberships);
     drop(relations_guard);
+    #[cfg(feature = "verif")]
+    crate::verif::point("pg.leave_all.taken");
     let mut removal_events = Vec::with_capacity(memberships.len());
 
     for key in memberships {
+        #[cfg(feature = "verif")]
+        crate::verif::point("pg.leave_all.key");
         if let Occupied(mut entry) = monitor.map.entry(key.clone()) {
             let group_state = entry.get_mut();
             if let Some(actor_cell) = group_state.members.remove(&actor) {
@@ -469,8 +481,12 @@ pub(crate) fn leave_all(actor: ActorId) {
         }
     }
 
+    #[cfg(feature = "verif")]
+    crate::verif::point("pg.leave_all.cleanup");
     remove_empty_actor_relations(monitor, actor, &relations);
 
+    #[cfg(feature = "verif")]
+    crate::verif::point("pg.leave_all.notify");
     for (scope_and_group, cell, per_group_listeners) in &removal_events {
         for listener in per_group_listeners {
             let _ = listener.send_supervisor_evt(SupervisionEvent::ProcessGroupChanged(
@@ -630,6 +646,8 @@ pub fn monitor(group: GroupName, actor: ActorCell) {
     let monitor = get_monitor();
     let actor_id = actor.get_id();
     let relations = get_or_create_actor_relations(monitor, actor_id);
+    #[cfg(feature = "verif")]
+    crate::verif::point("pg.monitor.relations");
     let mut entry = monitor.map.entry(key.clone()).or_default();
     let mut relations_guard = lock_relations(&relations);
 
@@ -646,6 +664,8 @@ pub fn monitor(group: GroupName, actor: ActorCell) {
 
     drop(relations_guard);
     drop(entry);
+    #[cfg(feature = "verif")]
+    crate::verif::point("pg.monitor.recheck");
     if actor.get_status() >= ActorStatus::Stopping {
         if let Occupied(entry) = monitor.map.entry(key) {
             if entry.get().members.is_empty() && entry.get().listeners.is_empty() {
@@ -668,6 +688,8 @@ pub fn monitor_scope(scope: ScopeName, actor: ActorCell) {
     let monitor = get_monitor();
     let actor_id = actor.get_id();
     let relations = get_or_create_actor_relations(monitor, actor_id);
+    #[cfg(feature = "verif")]
+    crate::verif::point("pg.monitor_scope.relations");
     let mut entry = monitor.world_listeners.entry(key.clone()).or_default();
     let mut relations_guard = lock_relations(&relations);
 
@@ -681,6 +703,8 @@ pub fn monitor_scope(scope: ScopeName, actor: ActorCell) {
 
     drop(relations_guard);
     drop(entry);
+    #[cfg(feature = "verif")]
+    crate::verif::point("pg.monitor_scope.recheck");
     if actor.get_status() >= ActorStatus::Stopping {
         if let Occupied(entry) = monitor.world_listeners.entry(key) {
             if entry.get().is_empty() {
@@ -759,8 +783,12 @@ pub(crate) fn demonitor_all(actor: ActorId) {
     let group_monitors = std::mem::take(&mut relations_guard.group_monitors);
     let world_monitors = std::mem::take(&mut relations_guard.world_monitors);
     drop(relations_guard);
+    #[cfg(feature = "verif")]
+    crate::verif::point("pg.demonitor_all.taken");
 
     for key in group_monitors {
+        #[cfg(feature = "verif")]
+        crate::verif::point("pg.demonitor_all.key");
         if let Occupied(mut entry) = monitor.map.entry(key) {
             let group_state = entry.get_mut();
             group_state
@@ -773,6 +801,8 @@ pub(crate) fn demonitor_all(actor: ActorId) {
     }
 
     for key in world_monitors {
+        #[cfg(feature = "verif")]
+        crate::verif::point("pg.demonitor_all.wkey");
         if let Occupied(mut entry) = monitor.world_listeners.entry(key) {
             entry
                 .get_mut()
@@ -782,4 +812,83 @@ pub(crate) fn demonitor_all(actor: ActorId) {
             }
         }
     }
+}
+
+/// The four indexes, sorted, for the external verification harness.
+#[cfg(feature = "verif")]
+#[derive(Debug, Clone, Default, PartialEq, Eq)]
+pub struct VerifSnapshot {
+    /// forward map: (scope, group, member ids sorted, listener ids in list order)
+    pub map: Vec<(ScopeName, GroupName, Vec<ActorId>, Vec<ActorId>)>,
+    /// scope index: (scope, group names sorted)
+    pub index: Vec<(ScopeName, Vec<GroupName>)>,
+    /// world listeners: (scope, sentinel group, listener ids in list order)
+    pub world: Vec<(ScopeName, GroupName, Vec<ActorId>)>,
+    /// reverse index: (actor, memberships, group monitors, world monitors), each sorted
+    #[allow(clippy::type_complexity)]
+    pub relations: Vec<(
+        ActorId,
+        Vec<(ScopeName, GroupName)>,
+        Vec<(ScopeName, GroupName)>,
+        Vec<(ScopeName, GroupName)>,
+    )>,
+}
+
+/// Snapshot of the four process-group indexes (not atomic across indexes; call at quiescence
+/// or while every mutating thread is parked at a schedule point).
+#[cfg(feature = "verif")]
+pub fn verif_snapshot() -> VerifSnapshot {
+    fn sort_ids(mut v: Vec<ActorId>) -> Vec<ActorId> {
+        v.sort_by_key(|id| (id.node(), id.pid()));
+        v
+    }
+    fn keys(set: &HashSet<ScopeGroupKey>) -> Vec<(ScopeName, GroupName)> {
+        let mut v = set
+            .iter()
+            .map(|k| (k.scope.clone(), k.group.clone()))
+            .collect::<Vec<_>>();
+        v.sort();
+        v
+    }
+    let monitor = get_monitor();
+    let mut snap = VerifSnapshot::default();
+    for kvp in monitor.map.iter() {
+        snap.map.push((
+            kvp.key().scope.clone(),
+            kvp.key().group.clone(),
+            sort_ids(kvp.value().members.keys().cloned().collect()),
+            kvp.value().listeners.iter().map(|a| a.get_id()).collect(),
+        ));
+    }
+    snap.map.sort();
+    for kvp in monitor.index.iter() {
+        let mut groups = kvp.value().iter().cloned().collect::<Vec<_>>();
+        groups.sort();
+        snap.index.push((kvp.key().clone(), groups));
+    }
+    snap.index.sort();
+    for kvp in monitor.world_listeners.iter() {
+        snap.world.push((
+            kvp.key().scope.clone(),
+            kvp.key().group.clone(),
+            kvp.value().iter().map(|a| a.get_id()).collect(),
+        ));
+    }
+    snap.world.sort();
+    let relations = monitor
+        .actor_relations
+        .iter()
+        .map(|kvp| (*kvp.key(), kvp.value().clone()))
+        .collect::<Vec<_>>();
+    for (id, rel) in relations {
+        let guard = lock_relations(&rel);
+        snap.relations.push((
+            id,
+            keys(&guard.memberships),
+            keys(&guard.group_monitors),
+            keys(&guard.world_monitors),
+        ));
+    }
+    snap.relations.sort_by_key(|r| (r.0.node(), r.0.pid()));
+    snap
 }
